@@ -212,7 +212,7 @@ func worldTrouble(x *fw.Ctx, c Case, which string, wr WorldResult) bool {
 	return false
 }
 
-var usedBy = regexp.MustCompile(`Used By: .*? Variables:`)
+var usedBy = regexp.MustCompile(`Used By: .*? (Variables|Classes):`)
 
 func probeOut(src string, o Out) string {
 	if o.Err != nil {
